@@ -1,6 +1,7 @@
 package harness
 
 import (
+	"context"
 	"crypto/sha256"
 	"fmt"
 	"sort"
@@ -103,6 +104,50 @@ func c15Recs(tok string) []streamertypes.DistrRecord {
 type c15World struct {
 	f      *Fix
 	halted bool
+	pay    *c15PayRec // payouts of the incentives module account seen during the running block op
+}
+
+// c15Batch is one call of x/incentives Distribute as seen from the bank: all gauges are updated first,
+// then every recipient is paid once.  prev / cur are the real gauges before / after the call's updates.
+type c15Batch struct {
+	prev, cur map[uint64]inctypes.Gauge
+	paid      map[string]sdk.Coins
+}
+
+// c15PayRec records, through a bank send restriction that changes nothing, every payment the incentives
+// module account makes while a Begin/EndBlock runs, grouped into Distribute calls: a payment seen with a
+// gauge table different from the one of the previous payment starts a new call.
+type c15PayRec struct {
+	armed   bool
+	last    map[uint64]inctypes.Gauge
+	lastKey string
+	batches []*c15Batch
+}
+
+func c15GaugeTable(gs []inctypes.Gauge) (map[uint64]inctypes.Gauge, string) {
+	m := map[uint64]inctypes.Gauge{}
+	sort.Slice(gs, func(i, j int) bool { return gs[i].Id < gs[j].Id })
+	var b strings.Builder
+	for _, g := range gs {
+		m[g.Id] = g
+		fmt.Fprintf(&b, "%d:%s:%s:%d;", g.Id, g.Coins, g.DistributedCoins, g.FilledEpochs)
+	}
+	return m, b.String()
+}
+
+func (p *c15PayRec) arm(pre []inctypes.Gauge) {
+	p.last, p.lastKey = c15GaugeTable(append([]inctypes.Gauge(nil), pre...))
+	p.batches, p.armed = nil, true
+}
+
+func (p *c15PayRec) observe(ctx sdk.Context, f *Fix, to sdk.AccAddress, amt sdk.Coins) {
+	cur, key := c15GaugeTable(f.App.IncentivesKeeper.GetGauges(ctx))
+	if key != p.lastKey || len(p.batches) == 0 {
+		p.batches = append(p.batches, &c15Batch{prev: p.last, cur: cur, paid: map[string]sdk.Coins{}})
+		p.last, p.lastKey = cur, key
+	}
+	b := p.batches[len(p.batches)-1]
+	b.paid[to.String()] = b.paid[to.String()].Add(amt...)
 }
 
 type c15Trace struct {
@@ -172,7 +217,15 @@ func c15NewWorld(t *testing.T, maxIter uint64) *c15World {
 	for a := 0; a < c15NA; a++ {
 		f.Fund(Actor(a), sdk.NewCoin("stake", big), sdk.NewCoin(c15LockDenom(0), big), sdk.NewCoin(c15LockDenom(1), big))
 	}
-	return &c15World{f: f}
+	w := &c15World{f: f, pay: &c15PayRec{}}
+	inc := c15Addr(101)
+	f.App.BankKeeper.AppendSendRestriction(func(ctx context.Context, from, to sdk.AccAddress, amt sdk.Coins) (sdk.AccAddress, error) {
+		if w.pay.armed && from.Equals(inc) {
+			w.pay.observe(sdk.UnwrapSDKContext(ctx), f, to, amt)
+		}
+		return to, nil
+	})
+	return w
 }
 
 func (w *c15World) locksLine() string {
@@ -420,11 +473,15 @@ type c15Snap struct {
 	active   map[uint64]bool
 	upcoming map[uint64]bool
 	ptrs     map[string]string
+	gActive  map[uint64]bool // gauges in the incentives module's active list
 }
 
 func (w *c15World) snap() c15Snap {
 	f := w.f
-	s := c15Snap{bal: map[int]sdk.Coins{}, epochNo: map[string]int64{}, active: map[uint64]bool{}, upcoming: map[uint64]bool{}, ptrs: map[string]string{}}
+	s := c15Snap{bal: map[int]sdk.Coins{}, epochNo: map[string]int64{}, active: map[uint64]bool{}, upcoming: map[uint64]bool{}, ptrs: map[string]string{}, gActive: map[uint64]bool{}}
+	for _, g := range f.App.IncentivesKeeper.GetActiveGauges(f.Ctx) {
+		s.gActive[g.Id] = true
+	}
 	for _, a := range []int{0, 1, 2, 3, 4, 5, 100, 101, 102} {
 		s.bal[a] = c15Only(f.App.BankKeeper.GetAllBalances(f.Ctx, c15Addr(a)))
 	}
@@ -466,7 +523,11 @@ func (t *c15Trace) exec(line string) bool {
 	preLocks, _ := t.w.f.App.LockupKeeper.GetPeriodLocks(t.w.f.Ctx)
 	preRollapps := t.w.f.App.RollappKeeper.GetAllRollapps(t.w.f.Ctx)
 	preGauges := t.w.f.App.IncentivesKeeper.GetGauges(t.w.f.Ctx)
+	if fl[0] == "begin" || fl[0] == "end" {
+		t.w.pay.arm(preGauges)
+	}
 	class, err := t.w.apply(fl, false)
+	t.w.pay.armed = false
 	t.kinds = append(t.kinds, fl[0]+"/"+class)
 	if class == "ok" && fl[0] != "begin" && fl[0] != "end" {
 		t.accepted = true
@@ -792,6 +853,10 @@ func (t *c15Trace) monitors(fl []string, class string, pre c15Snap, preLocks []l
 		}
 	}
 
+	if op == "begin" || op == "end" {
+		t.proportional(op, pre, post, preLocks, preRollapps, preGauges)
+	}
+
 	// branch bookkeeping for naming paging differences
 	if op == "begin" {
 		// all due upcoming streams are activated by the first BeforeEpochStart of the block (identifiers
@@ -858,6 +923,226 @@ func (t *c15Trace) monitors(fl []string, class string, pre c15Snap, preLocks []l
 		}
 	}
 	_ = class
+}
+
+// proportional: "rewards reach the owners of qualifying locks in proportion to their locked amounts".
+//
+// Model independent.  For every Distribute call of the block op (c15Batch) and every gauge whose distributed
+// coins changed in it, the payout is recomputed from the REAL state before the call:
+//   * asset gauge (denom d, duration D): the qualifying locks are the locks of the real lockup table that hold
+//     d and have Duration >= D — the rule of GetLocksLongerThanDurationDenom (an inclusive range over the
+//     denom/duration index, over BOTH the not-unlocking and the unlocking prefix: a lock counts until it is
+//     withdrawn after maturity), re-derived here over GetPeriodLocks, not taken from the function under test.
+//     (Epochs run first in BeginBlock and the streamer runs before lockup in EndBlock, so the lock table at
+//     the start of the op is the table at the distribution.)
+//     Every qualifying lock l is due exactly  floor(remain_c * amount_l / (S * e))  of every remaining coin c,
+//     S the qualifying locks' total, e = 1 (perpetual) or NumEpochsPaidOver - FilledEpochs: the code's own
+//     rounding, no tolerance; remain = the gauge's coins at the call minus what it had distributed before.
+//   * rollapp gauge: what it distributed goes to the rollapp's owner.
+// Each recipient's payment in the call must equal the sum of what it is due; anybody else gets nothing.
+// Additionally, at the incentives module's epoch end every active asset gauge with a qualifying lock that is
+// due a positive amount must have distributed.
+func (t *c15Trace) proportional(op string, pre, post c15Snap, preLocks []lockuptypes.PeriodLock, preRollapps []rollapptypes.Rollapp, preGauges []inctypes.Gauge) {
+	r, f := t.r, t.w.f
+	batches := t.w.pay.batches
+	t.w.pay.batches = nil
+
+	type due struct {
+		owner string
+		amt   sdk.Coins
+	}
+	// what an asset gauge with `remain` coins left owes to each qualifying lock
+	dueOf := func(g inctypes.Gauge, remain sdk.Coins, filled uint64) (out []due, qualifying int) {
+		a := g.GetAsset()
+		e := uint64(1)
+		if !g.IsPerpetual {
+			if g.NumEpochsPaidOver <= filled {
+				return nil, 0
+			}
+			e = g.NumEpochsPaidOver - filled
+		}
+		sum := math.ZeroInt()
+		var q []lockuptypes.PeriodLock
+		for _, l := range preLocks {
+			if amt := l.Coins.AmountOf(a.Denom); amt.IsPositive() && l.Duration >= a.Duration {
+				q = append(q, l)
+				sum = sum.Add(amt)
+			}
+		}
+		if sum.IsZero() {
+			return nil, 0
+		}
+		for _, l := range q {
+			cs := sdk.NewCoins()
+			for _, c := range remain {
+				if x := c.Amount.Mul(l.Coins.AmountOf(a.Denom)).Quo(sum.Mul(math.NewIntFromUint64(e))); x.IsPositive() {
+					cs = cs.Add(sdk.NewCoin(c.Denom, x))
+				}
+			}
+			out = append(out, due{l.Owner, cs})
+		}
+		return out, len(q)
+	}
+	actorOf := func(addr string) string {
+		for a := 0; a < c15NA; a++ {
+			if Actor(a).String() == addr {
+				return fmt.Sprintf("actor %d", a)
+			}
+		}
+		return addr
+	}
+
+	// a hook whose error the epochs module swallowed has its payments rolled back: the payments seen must
+	// add up to what the accounts really gained, otherwise the calls cannot be told apart any more
+	seen := map[string]sdk.Coins{}
+	for _, b := range batches {
+		for to, c := range b.paid {
+			seen[to] = seen[to].Add(c...)
+		}
+	}
+	reconciled := true
+	for a := 0; a < c15NA; a++ {
+		if !post.bal[a].IsAllGTE(pre.bal[a]) || !c15Only(seen[Actor(a).String()]).Equal(post.bal[a].Sub(pre.bal[a]...)) {
+			reconciled = false
+		}
+		delete(seen, Actor(a).String())
+	}
+	if len(seen) > 0 {
+		reconciled = false
+	}
+	if !reconciled {
+		r.Hit("proportional/payments-rolled-back")
+		return
+	}
+
+	distributedInOp := map[uint64]bool{}
+	for _, b := range batches {
+		r.Hit("proportional/distribute-call")
+		expect := map[string]sdk.Coins{}
+		qualifies := map[string]bool{} // owners of a lock qualifying for an asset gauge that distributed in this call
+		var assets []inctypes.Gauge
+		for id, g := range b.cur {
+			pg, ok := b.prev[id]
+			if !ok || g.DistributedCoins.Equal(pg.DistributedCoins) {
+				continue
+			}
+			distributedInOp[id] = true
+			if !g.DistributedCoins.IsAllGTE(pg.DistributedCoins) || !g.Coins.IsAllGTE(pg.DistributedCoins) {
+				continue // reported by gauge_bounded
+			}
+			handed := g.DistributedCoins.Sub(pg.DistributedCoins...)
+			switch {
+			case g.GetAsset() != nil:
+				r.Hit("proportional/asset-gauge-distributes")
+				assets = append(assets, g)
+				ds, nq := dueOf(g, g.Coins.Sub(pg.DistributedCoins...), pg.FilledEpochs)
+				if nq > 1 {
+					r.Hit("proportional/several-qualifying-locks")
+				}
+				total := sdk.NewCoins()
+				for _, d := range ds {
+					expect[d.owner] = expect[d.owner].Add(d.amt...)
+					qualifies[d.owner] = true
+					total = total.Add(d.amt...)
+				}
+				if !total.Equal(handed) {
+					sig := "C15/proportional/payout-not-proportional"
+					if nq > 0 && handed.IsAllLTE(total) {
+						sig = "C15/proportional/qualifying-lock-unpaid"
+					}
+					r.Violate(sig, fmt.Sprintf("in `%s` asset gauge %d (%s, duration %s) handed out %s; its %d qualifying locks are due %s in total (remaining %s, filled epochs %d)",
+						op, id, g.GetAsset().Denom, g.GetAsset().Duration, handed, nq, total, g.Coins.Sub(pg.DistributedCoins...), pg.FilledEpochs), t.replay()...)
+				}
+			case g.GetRollapp() != nil:
+				for _, x := range preRollapps {
+					if x.RollappId == g.GetRollapp().RollappId {
+						expect[x.Owner] = expect[x.Owner].Add(handed...)
+					}
+				}
+			}
+		}
+		// the shape in which one gauge's lock selection can leak into another's: two asset gauges of one
+		// denom with different durations in one call, and a lock whose duration lies between the two
+		for i := range assets {
+			for j := range assets {
+				a, c := assets[i].GetAsset(), assets[j].GetAsset()
+				if a.Denom != c.Denom || a.Duration <= c.Duration {
+					continue
+				}
+				for _, l := range preLocks {
+					if l.Coins.AmountOf(a.Denom).IsPositive() && l.Duration >= c.Duration && l.Duration < a.Duration {
+						if assets[i].Id < assets[j].Id {
+							r.Hit("proportional/two-durations/longer-gauge-first")
+						} else {
+							r.Hit("proportional/two-durations/shorter-gauge-first")
+						}
+						break
+					}
+				}
+			}
+		}
+		owners := map[string]bool{}
+		for o := range expect {
+			owners[o] = true
+		}
+		for o := range b.paid {
+			owners[o] = true
+		}
+		names := []string{}
+		for o := range owners {
+			names = append(names, o)
+		}
+		sort.Strings(names)
+		for _, o := range names {
+			got, want := c15Only(b.paid[o]), c15Only(expect[o])
+			if got.Equal(want) {
+				continue
+			}
+			sig := "C15/proportional/payout-not-proportional"
+			if qualifies[o] && got.IsAllLTE(want) {
+				sig = "C15/proportional/qualifying-lock-unpaid"
+			}
+			r.Violate(sig, fmt.Sprintf("in one Distribute call of `%s` %s was paid %s; its qualifying locks (and rollapps) are due %s", op, actorOf(o), c15ShowCoins(got), c15ShowCoins(want)), t.replay()...)
+		}
+	}
+
+	// the incentives epoch end distributes every active gauge
+	if op == "begin" {
+		id := f.App.IncentivesKeeper.GetParams(f.Ctx).DistrEpochIdentifier
+		if pre.epochNo[id] >= 1 && post.epochNo[id] == pre.epochNo[id]+1 {
+			// the hook fails as a whole (and is swallowed) when a rollapp gauge cannot be paid
+			for _, g := range preGauges {
+				if ra := g.GetRollapp(); ra != nil {
+					found := false
+					for _, x := range preRollapps {
+						if x.RollappId == ra.RollappId {
+							found = true
+							if o, err := sdk.AccAddressFromBech32(x.Owner); err != nil || f.App.BankKeeper.BlockedAddr(o) {
+								return
+							}
+						}
+					}
+					if !found {
+						return
+					}
+				}
+			}
+			r.Hit("proportional/incentives-epoch-end")
+			for _, g := range preGauges {
+				if g.GetAsset() == nil || !pre.gActive[g.Id] || distributedInOp[g.Id] || !g.DistributedCoins.IsAllLTE(g.Coins) {
+					continue
+				}
+				ds, nq := dueOf(g, g.Coins.Sub(g.DistributedCoins...), g.FilledEpochs)
+				for _, d := range ds {
+					if !d.amt.Empty() {
+						r.Violate("C15/proportional/qualifying-lock-unpaid", fmt.Sprintf("the incentives epoch (%s) ended with asset gauge %d (%s, duration %s, remaining %s) active and %d qualifying locks, %s due %s, but the gauge distributed nothing",
+							id, g.Id, g.GetAsset().Denom, g.GetAsset().Duration, g.Coins.Sub(g.DistributedCoins...), nq, actorOf(d.owner), c15ShowCoins(d.amt)), t.replay()...)
+						break
+					}
+				}
+			}
+		}
+	}
 }
 
 // ---------------------------------------------------------------------------------------------
@@ -1221,6 +1506,42 @@ func c15RandomTrace(r *Run, g *Rng) {
 			x.do(fmt.Sprintf("fund %d %s", a, "1000000000000000000000000000,1000000000000000000000000000"))
 		}
 	}
+	// often: two asset gauges on one lock denom with different durations (both creation orders), locks whose
+	// durations lie between the two and above both, and a stream feeding both gauges
+	if g.Chance(60) {
+		r.Hit("shape/two-durations")
+		durs := []int{60, 3600, 10800, 25200}
+		i := g.Intn(len(durs) - 1)
+		short, long := durs[i], durs[i+1+g.Intn(len(durs)-1-i)]
+		d := g.Intn(2)
+		first, second := long, short
+		if g.Bool() {
+			first, second = short, long
+		}
+		if !x.do(fmt.Sprintf("begin %d", 1+g.Intn(100))) {
+			return
+		}
+		x.do(fmt.Sprintf("mkgauge %d 1 %d %d %s %d 1", g.Intn(c15NA), d, first, x.coins(true), x.now()))
+		x.do(fmt.Sprintf("mkgauge %d %s %d %d %s %d %d", g.Intn(c15NA), c15b(g.Chance(70)), d, second, x.coins(true), x.now(), 1+g.Intn(3)))
+		x.sync()
+		for k := 1 + g.Intn(3); k > 0; k-- {
+			x.do(fmt.Sprintf("lock %d %d %s %d", g.Intn(c15NA), d, []string{"1", "7", "100", "1000", "333333"}[g.Intn(5)], short))
+		}
+		if g.Chance(70) {
+			x.do(fmt.Sprintf("lock %d %d %s %d", g.Intn(c15NA), d, []string{"1", "7", "100", "1000", "333333"}[g.Intn(5)], long))
+		}
+		x.sync()
+		if g.Chance(60) && len(x.perp) >= 2 {
+			coins := x.coins(false)
+			x.do("fund 100 " + coins)
+			a, b := x.perp[len(x.perp)-2], x.perp[len(x.perp)-1]
+			x.do(fmt.Sprintf("mkstream %s %d:%d,%d:%d %d %d %d", coins, a, 1+g.Intn(3), b, 1+g.Intn(3), x.now(), []int{1, 1, 0, 2}[g.Intn(4)], 2+g.Intn(3)))
+			x.sync()
+		}
+		if !x.do("end") {
+			return
+		}
+	}
 	nblocks := 8 + g.Intn(30)
 	for b := 0; b < nblocks; b++ {
 		if !x.do(fmt.Sprintf("begin %d", x.dt())) {
@@ -1331,6 +1652,37 @@ var c15Witnesses = map[string][]string{
 		"fund 100 6000,0",
 		"mkstream 3000,0 1:1,2:1,3:1 NOW 1 2", "mkstream 3000,0 1:1,2:1,3:1 NOW 1 2",
 		"begin 3601", "end", "begin 3601", "end", "term 1", "begin 10", "end", "begin 10", "end", "begin 10", "end", "begin 3601", "end",
+	},
+	// two asset gauges on one lock denom with different durations, a lock whose duration lies between the two
+	// and a longer one: every gauge must pay exactly the locks that qualify for IT, whichever gauge is processed
+	// first (incentives epoch end = week; creation order = processing order for equal start times)
+	"two-durations-longer-first": {
+		"begin 1", "end", "fund 0 100000,100000",
+		"mkgauge 0 1 0 10800 5000,0 NOW 1", "mkgauge 0 1 0 3600 7000,30 NOW 1",
+		"lock 1 0 100 3600", "lock 2 0 300 25200", "lock 3 0 50 60",
+		"begin 604801", "end", "begin 10", "end",
+	},
+	"two-durations-shorter-first": {
+		"begin 1", "end", "fund 0 100000,100000",
+		"mkgauge 0 1 0 3600 7000,30 NOW 1", "mkgauge 0 1 0 10800 5000,0 NOW 1",
+		"lock 1 0 100 3600", "lock 2 0 300 25200", "lock 3 0 50 60",
+		"begin 604801", "end", "begin 10", "end",
+	},
+	// the same without a lock long enough for the longer gauge: the shorter gauge must still pay
+	"two-durations-no-long-lock": {
+		"begin 1", "end", "fund 0 100000,100000",
+		"mkgauge 0 1 0 10800 5000,0 NOW 1", "mkgauge 0 0 0 3600 7000,0 NOW 2",
+		"lock 1 0 100 3600", "lock 4 0 11 3600",
+		"begin 604801", "end", "begin 604801", "end",
+	},
+	// the same two gauges fed by one stream and distributed in one streamer call (limit 500) and one by one (limit 1)
+	"two-durations-streamed": {
+		"begin 1", "end", "fund 0 100000,100000",
+		"mkgauge 0 1 0 10800 0,0 NOW 1", "mkgauge 0 1 0 3600 0,0 NOW 1",
+		"lock 1 0 100 3600", "lock 2 0 300 25200",
+		"fund 100 9000,0", "mkstream 9000,0 1:1,2:2 NOW 1 4",
+		"begin 604801", "end", "begin 3601", "end", "begin 10", "end",
+		"maxiter 1", "begin 3601", "end", "begin 10", "end", "begin 10", "end",
 	},
 	// a stream that becomes active at another identifier's epoch start is served in its first (partial)
 	// epoch only if the pointer of its own epoch has not yet reached the end
